@@ -58,4 +58,8 @@ def jobs(tier):
         add(0, 2, 1)
         for op in (1, 2, 3, 4):
             add(op, 1, 1); add(op, 2, 1); add(op, 3, 1, timeout=300)
+    for op in (3, 4):
+        for n in ((4, 5) if tier == 'quick' else (4, 5, 6, 7)):
+            js.append(Job('%s/grid/n%d' % (OPS[op], n), 'C13_bool.cpp', 'h_grid', SAT_UNITS, 30, params=[op, n], timeout=240, mem=8,
+                          desc='%s over %d fresh positive arguments (product / grid encoding); models and argument assignments symbolic' % (OPS[op], n), bounds={'args': n}))
     return js
